@@ -71,7 +71,18 @@ def handle (op : String) (j : Json) : Except String Json := do
     pure (Json.mkObj [("fut", futToJson s.fut), ("src_disposed", .bool s.stopped)])
   | "br_run" =>
     let xs ← (← getArr j "xs").mapM notifOfJson
-    pure (match ToFuture.runBlocking xs with
+    let res : ToFuture.RunResult Val :=
+      match j.getObjVal? "sched" with
+      | .ok (.arr bs) =>
+        -- the two-thread latch model under the given interleaving (then the waiter alone, to quiescence)
+        let sched := bs.toList.map fun b => b == Json.bool true
+        let s := RunLatch.run xs sched
+        let s := RunLatch.wstep (RunLatch.wstep (RunLatch.wstep (RunLatch.wstep (RunLatch.wstep s))))
+        match s.w with
+        | .finished r => r
+        | _ => .blocks
+      | _ => ToFuture.runBlocking xs
+    pure (match res with
       | .returns v => Json.arr #[.str "returns", valToJson v]
       | .raises e => Json.arr #[.str "raises", .str e]
       | .blocks => Json.arr #[.str "blocks"])
